@@ -40,6 +40,9 @@ pub enum ExtMut {
     LengthPrefixTooLong(u8),
     /// admin vector whose byte length is not a multiple of 32
     AdminVectorRagged,
+    /// the admin list (false) / relay list (true) announces a byte length that ends inside its
+    /// last element; all bytes of the elements are there
+    ListPrefixEndsInsideElement(bool),
 }
 
 #[derive(Clone, Debug, PartialEq, Eq, Hash, Serialize, Deserialize)]
@@ -207,6 +210,38 @@ fn extension_case(v: &ExtValue, muts: &[ExtMut], rep: &mut CaseReport) -> Result
                 r.admins.push(1);
                 r.encode()
             }
+            ExtMut::ListPrefixEndsInsideElement(relays) => {
+                // hand-assembled: same bytes as the honest encoding, only the list's own length
+                // prefix is one byte short of the truth
+                let mut o = vec![];
+                o.extend(r.version.to_be_bytes());
+                o.extend(r.gid);
+                vbytes(&r.name, &mut o);
+                vbytes(&r.description, &mut o);
+                let mut rl = vec![];
+                for x in &r.relays {
+                    vbytes(x, &mut rl);
+                }
+                if *relays {
+                    if rl.len() < 2 {
+                        continue;
+                    }
+                    vbytes(&r.admins, &mut o);
+                    varint(rl.len() - 1, &mut o);
+                    o.extend(&rl);
+                } else {
+                    if r.admins.len() < 32 {
+                        continue;
+                    }
+                    varint(r.admins.len() - 1, &mut o);
+                    o.extend(&r.admins);
+                    vbytes(&rl, &mut o);
+                }
+                for f in &r.image {
+                    vbytes(f, &mut o);
+                }
+                o
+            }
         };
         if mutated == bytes {
             continue;
@@ -218,14 +253,18 @@ fn extension_case(v: &ExtValue, muts: &[ExtMut], rep: &mut CaseReport) -> Result
             Ok(Ok(parsed)) => {
                 // LengthPrefixTooLong may by chance produce another well-formed value: accept only
                 // if it round-trips to exactly these bytes (then it is simply another valid value)
+                // (the admins decode to a set: bytes that list them in another order than the
+                // encoder's are the same value in a non-canonical spelling, which is not judged)
                 let again = parsed.verif_to_tls_bytes().unwrap_or_default();
-                if matches!(m, ExtMut::LengthPrefixTooLong(_) | ExtMut::Truncate(_)) && again == mutated {
+                let same_value_same_size = again.len() == mutated.len()
+                    && NostrGroupDataExtension::verif_from_tls_bytes(&again).map(|p2| format!("{p2:?}") == format!("{parsed:?}")).unwrap_or(false);
+                if matches!(m, ExtMut::LengthPrefixTooLong(_) | ExtMut::Truncate(_)) && (again == mutated || same_value_same_size) {
                     rep.classes.push("extension-mutant-was-another-valid-encoding".into());
                     continue;
                 }
                 return Err(Failure::new(
                     "extension-parser-accepted-an-ambiguous-encoding",
-                    format!("{m:?} of {v:?} was accepted as {parsed:?}"),
+                    format!("{m:?} of {v:?} was accepted as {parsed:?} [{} bytes in: {}; re-encoded {} bytes: {}]", mutated.len(), hex::encode(&mutated), again.len(), hex::encode(&again)),
                 ));
             }
             Ok(Err(_)) => {}
@@ -556,7 +595,7 @@ pub fn main(args: &Args) -> i32 {
     let spec = Spec {
         id: "C15",
         level: "exploration",
-        rule: "four generated families. (1) group-data extension values (any UTF-8 name/description incl. empty, NUL, multi-byte, long; 0..n admins and relays; all 16 presence patterns of the four image fields; versions 1..65535): library encoding equals an independent encoder of the documented layout, decode(encode(v)) = v, and each single-field mutation (appended bytes, truncation, version 0, non-UTF-8 name/description/relay, invalid relay URL, image field lengths other than 0 or the fixed one, over-long length prefix, ragged admin vector) is refused. (2) key-package events over relay lists / protected flag: a second client parses them to the same reference and identity; each listed ambiguity (missing / hex encoding tag, hex content, foreign or missing i tag, foreign author, wrong protocol / ciphersuite / extensions tags, wrong kind, missing relays) is refused. (3) welcome rumors of real create_group calls: the joiner's preview equals the inviter's group data; missing / hex / second disagreeing or value-less encoding tag, hex content, wrong kind, missing relays / e tag, truncation are refused - the structural ones also when offered after the genuine invitation under its wrapper id or with its rumor id. (4) imeta tags over MIME families, file names and sizes: parse(create(u)) equals the reference; wrong-length or non-hex x / n, unknown or missing v, missing x / n are refused. Non-trivial = every case that reached its round trip; distinct = distinct cases".into(),
+        rule: "four generated families. (1) group-data extension values (any UTF-8 name/description incl. empty, NUL, multi-byte, long; 0..n admins and relays; all 16 presence patterns of the four image fields; versions 1..65535): library encoding equals an independent encoder of the documented layout, decode(encode(v)) = v, and each single-field mutation (appended bytes, truncation, version 0, non-UTF-8 name/description/relay, invalid relay URL, image field lengths other than 0 or the fixed one, over-long length prefix, ragged admin vector, a list length prefix that ends inside the list's last element) is refused. (2) key-package events over relay lists / protected flag: a second client parses them to the same reference and identity; each listed ambiguity (missing / hex encoding tag, hex content, foreign or missing i tag, foreign author, wrong protocol / ciphersuite / extensions tags, wrong kind, missing relays) is refused. (3) welcome rumors of real create_group calls: the joiner's preview equals the inviter's group data; missing / hex / second disagreeing or value-less encoding tag, hex content, wrong kind, missing relays / e tag, truncation are refused - the structural ones also when offered after the genuine invitation under its wrapper id or with its rumor id. (4) imeta tags over MIME families, file names and sizes: parse(create(u)) equals the reference; wrong-length or non-hex x / n, unknown or missing v, missing x / n are refused. Non-trivial = every case that reached its round trip; distinct = distinct cases".into(),
         assumptions: vec![
             "the reference encoder follows TLS presentation language with RFC 9420 variable-length integers (as tls_codec does)".into(),
             "trailing bytes after the TLS structure inside key-package / welcome content are measured by C06's mutants but not judged here: only the extension parser documents a trailing-byte check".into(),
@@ -566,16 +605,12 @@ pub fn main(args: &Args) -> i32 {
         exhaustive: false,
     };
     let ext_mut = prop_oneof![
-        any::<u8>().prop_map(ExtMut::AppendBytes),
-        any::<u8>().prop_map(ExtMut::Truncate),
-        Just(ExtMut::VersionZero),
-        Just(ExtMut::NameNotUtf8),
-        Just(ExtMut::DescriptionNotUtf8),
-        Just(ExtMut::BadRelayUrl),
-        Just(ExtMut::RelayNotUtf8),
-        (0u8..4, any::<u8>()).prop_map(|(f, n)| ExtMut::ImageFieldLength(f, n)),
-        any::<u8>().prop_map(ExtMut::LengthPrefixTooLong),
-        Just(ExtMut::AdminVectorRagged),
+        1 => any::<u8>().prop_map(ExtMut::AppendBytes),
+        1 => any::<u8>().prop_map(ExtMut::Truncate),
+        6 => prop::sample::select(vec![ExtMut::VersionZero, ExtMut::NameNotUtf8, ExtMut::DescriptionNotUtf8, ExtMut::BadRelayUrl, ExtMut::RelayNotUtf8, ExtMut::AdminVectorRagged]),
+        1 => (0u8..4, any::<u8>()).prop_map(|(f, n)| ExtMut::ImageFieldLength(f, n)),
+        1 => any::<u8>().prop_map(ExtMut::LengthPrefixTooLong),
+        2 => any::<bool>().prop_map(ExtMut::ListPrefixEndsInsideElement),
     ];
     drive(
         args,
